@@ -58,6 +58,7 @@ NS_SETS = {  # attribute kind of each registered set, in registration order
     "holder": ["qual", "ext"], "aas": ["ext"], "cd": ["ext"],
 }
 ATTR = {"ref": "id_short", "qual": "type", "ext": "name"}
+GETTERS = ("get_referable", "get_qualifier_by_type", "get_extension_by_name")
 SINGLE_OPS = {"add", "remove", "removeKey", "discard", "pop", "popAt", "insert", "append", "setItem", "delItem", "rename",
               "nsAdd", "nsRemove"}
 
@@ -67,13 +68,14 @@ SINGLE_OPS = {"add", "remove", "removeKey", "discard", "pop", "popAt", "insert",
 def _exc(e: Exception) -> List[Any]:
     from basyx.aas.model import AASConstraintViolation
     # Referable.__repr__ is called only while an error message is being formatted at a raise point.  On the pinned tree it
-    # raises TypeError itself when an ancestor has no idShort; the call then still raises at the same point (state effects are
-    # identical), only the exception type is replaced.  Reported as a wildcard that matches any exception of the model.
+    # can raise itself (TypeError when an ancestor has no idShort; ValueError out of `parent.value.index(self)` while a slice
+    # assignment has the element in the backend but not yet in `_order`); the call then still raises at the same point (state
+    # effects are identical), only the exception type is replaced.  Reported as a wildcard matching any exception of the model.
     tb = e.__traceback__
-    while tb is not None and tb.tb_next is not None:
+    while tb is not None:
+        if tb.tb_frame.f_code.co_name == "__repr__" and tb.tb_frame.f_code.co_filename.endswith("base.py"):
+            return ["raise", "*repr*"]
         tb = tb.tb_next
-    if tb is not None and tb.tb_frame.f_code.co_name == "__repr__" and isinstance(e, TypeError):
-        return ["raise", "*repr*"]
     if isinstance(e, AASConstraintViolation):
         return ["raise", "AASCV", e.constraint_id]
     return ["raise", type(e).__name__]
@@ -181,6 +183,22 @@ class World:
     def sets(self, n):
         return self.nss[n].namespace_element_sets
 
+    def live_arg(self) -> List[Any]:
+        """the reachable namespaces with, per getter (get_referable, get_qualifier_by_type, get_extension_by_name):
+        0 = the class has no such getter, 1 = probe it, 2 = SubmodelElementList.get_referable (takes indices: not probed)"""
+        out = []
+        for n, o in enumerate(self.nss):
+            if o is None:
+                continue
+            fl = [1 if hasattr(o, g) else 0 for g in GETTERS]
+            if self.nskinds[n] == "sml":
+                fl[0] = 2
+            out.append([n, fl])
+        return out
+
+    def key_arg(self, k):
+        return getattr(self.elems[k[1]], ATTR[self.kinds[k[1]]]) if isinstance(k, list) else k
+
     # -- one call
     def step(self, op: List[Any]) -> Any:
         k = op[0]
@@ -201,13 +219,12 @@ class World:
                 return ["ok"]
             if k == "nsAdd":
                 ns, el = self.nss[op[1]], self.elems[op[2]]
-                {"ref": "add_referable", "qual": "add_qualifier", "ext": "add_extension"}[self.kinds[op[2]]]
                 getattr(ns, {"ref": "add_referable", "qual": "add_qualifier", "ext": "add_extension"}[self.kinds[op[2]]])(el)
                 return ["ok"]
             if k == "nsRemove":
                 ns = self.nss[op[1]]
                 getattr(ns, {"ref": "remove_referable", "qual": "remove_qualifier_by_type",
-                             "ext": "remove_extension_by_name"}[op[2]])(op[3])
+                             "ext": "remove_extension_by_name"}[op[2]])(self.key_arg(op[3]))
                 return ["ok"]
             if k == "setValue":
                 self.nss[op[1]].value = iter([self.elems[e] for e in op[2]])
@@ -222,9 +239,9 @@ class World:
             elif k == "removeKey":
                 attr = next(iter(s.get_attribute_name_list()))
                 if hasattr(s, "_order"):
-                    s.remove((attr, op[3]))
+                    s.remove((attr, self.key_arg(op[3])))
                 else:
-                    s.remove_by_id(attr, op[3])
+                    s.remove_by_id(attr, self.key_arg(op[3]))
             elif k == "pop":
                 return ["ok", self.h_of[id(s.pop())]]
             elif k == "popAt":
@@ -276,7 +293,7 @@ class World:
                 keys.append(k)
         keys += probes
         nv = []
-        for n in live:
+        for n, flags in live:
             ns = self.nss[n]
             sv = []
             for s in ns.namespace_element_sets:
@@ -304,13 +321,13 @@ class World:
                 sv.append([attr, it, ln, cont, look, pos])
             # namespace-level getters
             nl = []
-            for kind, getter in (("ref", "get_referable"), ("qual", "get_qualifier_by_type"), ("ext", "get_extension_by_name")):
-                if not hasattr(ns, getter):
+            for fl, getter in zip(flags, GETTERS):
+                if fl == 0:
                     nl.append(None)
                     continue
                 row = []
                 for k in keys:
-                    if kind == "ref" and self.nskinds[n] == "sml":
+                    if fl == 2:
                         row.append(None)      # lists resolve indices, not idShorts (C07)
                         continue
                     try:
@@ -399,6 +416,11 @@ class HistoryGen:
         key = rng.choice(ID_POOL + ID_POOL + [None]) if kind in SME_KINDS else None
         return ["ns", kind, key, items, cfg]
 
+    def spell(self, h: int):
+        """the key of element h as an op argument: the string, or ["of", h] for a generated idShort"""
+        k = getattr(self.w.elems[h], ATTR[self.w.kinds[h]])
+        return ["of", h] if isinstance(k, str) and k.startswith(GEN_PREFIX) else k
+
     def live(self) -> List[int]:
         return [n for n, o in enumerate(self.w.nss) if o is not None]
 
@@ -471,7 +493,7 @@ class HistoryGen:
             kd = rng.choice(["ref", "ref", "qual", "ext"])
             meth = {"ref": "remove_referable", "qual": "remove_qualifier_by_type", "ext": "remove_extension_by_name"}[kd]
             if hasattr(w.nss[n], meth):
-                keys = [getattr(el, ATTR[w.kinds[h]]) for h, el in enumerate(w.elems)
+                keys = [self.spell(h) for h, el in enumerate(w.elems)
                         if w.kinds[h] == kd and (getattr(el, "parent", None) is w.nss[n] or rng.random() < 0.2)]
                 keys = [k for k in keys if k is not None] or (ID_POOL if kd == "ref" else QT_POOL)
                 return ["nsRemove", n, kd, rng.choice(keys)]
@@ -552,7 +574,7 @@ class HistoryGen:
         if k == "discard":
             return ["discard", n, j, pick_member(0.6)]
         if k == "removeKey":
-            keys = [getattr(w.elems[h], ATTR[kd]) for h in members] if rng.random() < 0.75 else []
+            keys = [self.spell(h) for h in members] if rng.random() < 0.75 else []
             keys = [x for x in keys if x is not None] or (ID_POOL if kd == "ref" else QT_POOL)
             return ["removeKey", n, j, rng.choice(keys)]
         if k == "extend":
@@ -584,7 +606,7 @@ def run_history(rng: random.Random, length: int, on_step=None) -> Tuple[List[Lis
         g.note(op, r)
         lines.append(op)
         outs.append(r)
-        v = ["view", g.live(), PROBES]
+        v = ["view", g.w.live_arg(), PROBES]
         lines.append(v)
         outs.append(g.w.step(v))
         if fail is None:
@@ -799,7 +821,7 @@ def correspond(ctx: C.Ctx, cov: C.Coverage) -> List[C.Disagreement]:
             for op in DIRECTED[hi]:
                 hl.append(op)
                 ho.append(w.step(op))
-                v = ["view", [n for n, o in enumerate(w.nss) if o is not None], PROBES]
+                v = ["view", w.live_arg(), PROBES]
                 hl.append(v)
                 ho.append(w.step(v))
         else:
